@@ -220,6 +220,8 @@ type BatchInfo struct {
 	Msgs []ExpMsg
 	// which participants answered (by message on the board)
 	Answered map[int]bool
+	// expansions of earlier proposals that used the same batch identifier
+	Earlier [][]ExpMsg
 }
 
 type ExpMsg struct {
@@ -291,6 +293,7 @@ func (t *Tracker) onAppend(m storage.Message, by int) {
 			// ask for fresh identifiers): from now on this proposal is the one the
 			// batch's signatures, stored payloads and exports have to match
 			if old.Round == m.DkgRoundID {
+				old.Earlier = append(old.Earlier, old.Msgs)
 				old.Offset, old.Sender, old.Msgs, old.Answered = m.Offset, m.SenderAddr, t.Expand(req.SigningTasks), map[int]bool{}
 				t.Reproposed++
 			}
